@@ -317,6 +317,11 @@ func (a *harnessAcc) merge(r *interp.ExploreResult) {
 		c.Reached += v.Reached
 		c.Witness += v.Witness
 	}
+	for _, sm := range r.Stats.Samples {
+		if len(s.Samples) < 4 {
+			s.Samples = append(s.Samples, sm)
+		}
+	}
 	for _, w := range r.Stats.Inconclusive {
 		found := false
 		for _, x := range s.Inconclusive {
